@@ -217,6 +217,14 @@ func runS3Big(r *compileRun, a *refsem.Arch) {
 			lists = append(lists, l)
 		}
 	}
+	// lists that repeat a condition verbatim with another one in between ([a, b, a]) or next to it ([a, a, b], [b, a, a])
+	for ai, ca := range conds {
+		for bi, cb := range conds {
+			if ai != bi {
+				lists = append(lists, seccomp.ArgumentConditions{ca, cb, ca}, seccomp.ArgumentConditions{ca, ca, cb}, seccomp.ArgumentConditions{cb, ca, ca})
+			}
+		}
+	}
 	type pr struct{ i, j, k int }
 	var jobs []pr
 	for i := range lists {
